@@ -25,6 +25,7 @@ STRINGS = ["", "abc", "it's", "''", "'", "a''b", "x' OR '1'='1", "x' OR '1'='1' 
            "last 7 days", "this month", "nan", "NaN", "inf", "-inf", "Infinity", "1e309", "1.5", "-2", "1e5", "0x10", "1_000", " 12 ", "12abc", "a.b", "a_b1", "a-b", "a b",
            "status", "orders.status", "1=1", "\"q\"", "%", "_", ".", "__", "9" * 40, "z" * 300 + "'", "\u00e9t\u00e9", "\u4e2d\u6587'", "\U0001F600",
            # values that name ANOTHER registered model (a joinable one): nothing in a value may pull a model into the query
+           "ZZ TOP", "Zz Top", "zz  top", " zz top", "zz top",
            "customers.region", "\\' customers.id", "x\\' OR customers.id = 1 --", "' customers.region = '", "a\\\\' customers.id", "customers.id = orders.customer_id"]
 
 
@@ -171,7 +172,9 @@ def make_layer():
 
 
 TEMPLATES = {
-    "string": ["orders.status = {{ p_string }}", "orders.status <> {{p_string}} AND orders.amount > 1", "orders.status IN ({{ p_string }}, 'k')"],
+    "string": ["orders.status = {{ p_string }}", "orders.status <> {{p_string}} AND orders.amount > 1", "orders.status IN ({{ p_string }}, 'k')",
+               # the same column and operator twice, once with a fixed literal: a value that differs from it only in case / spacing is still a second condition
+               "orders.status <> 'zz top' AND orders.status <> {{ p_string }}"],
     "date": ["orders.created >= {{ p_date }}", "orders.created = {{ p_date }}", "orders.created BETWEEN {{ p_date }} AND '2030-01-01'"],
     "number": ["orders.amount > {{ p_number }}", "orders.amount = {{ p_number }} AND orders.status = 'a'"],
     "unquoted": ["orders.{{ p_unquoted }} = 'a'"],
